@@ -42,7 +42,7 @@ func handshakeScenarios(seed int64, thorough bool) []scen {
 	sh := int(uint64(seed) % 5)
 	var v2s []scen
 	for i, g := range G {
-		v2s = append(v2s, scen{gI: g, gR: G[(i+1+sh)%len(G)], dI: (i + sh) % 3, dR: (i + 1) % 3, hello: "v2"})
+		v2s = append(v2s, scen{gI: g, gR: G[(i+1+sh)%len(G)], dI: (i + sh) % 3, dR: (i + 1) % 3, hello: "v2", uPlusP: i%2 == 1})
 	}
 	for i, pm := range []int{1, 4, 15} {
 		v2s = append(v2s, scen{gI: G[(i+sh)%len(G)], gR: G[(2*i+sh+3)%len(G)], dI: i % 2, dR: (i + sh) % 2, hello: "v2", pm: pm})
@@ -65,7 +65,7 @@ func allGarbagePairs(seed int64) []scen {
 	var out []scen
 	for i, gi := range G {
 		for j, gr := range G {
-			out = append(out, scen{gI: gi, gR: gr, dI: (i + j + int(uint64(seed)%3)) % 3, dR: (i + 2*j) % 3, hello: "v2", noFaults: true})
+			out = append(out, scen{gI: gi, gR: gr, dI: (i + j + int(uint64(seed)%3)) % 3, dR: (i + 2*j) % 3, hello: "v2", noFaults: true, uPlusP: (i+j)%3 == 0})
 		}
 	}
 	return out
@@ -92,6 +92,17 @@ func pickPairing(idx int, first tla.State) pairing {
 	}
 	if sc.F("pm").Int() > 0 {
 		return pairing{"ref", "real"} // only the reference initiator can choose its key prefix
+	}
+	if sc.F("enc").Str() != "canon" {
+		// only reference endpoints can send a non-canonical key encoding
+		switch idx % 8 {
+		case 7:
+			return pairing{"ref", "ref"}
+		}
+		if idx%2 == 0 {
+			return pairing{"ref", "real"}
+		}
+		return pairing{"real", "ref"}
 	}
 	switch idx % 16 {
 	case 15:
